@@ -463,6 +463,7 @@ def engine_a_check(pid, tier, jobs, required_reach, assumptions, level_note, out
         "per_harness": per_harness,
         "functions_encoded": sorted(funcs.items(), key=lambda kv: -kv[1])[:80],
         "dependency_functions_encoded": sorted(f for f in funcs if "openfga/language" not in f)[:120],
+        "repo_functions_encoded": sorted(f for f in funcs if "openfga/language/pkg/go" in f and "/zzverif" not in f and "/gen." not in f and "/gen)" not in f),
         "functions_encoded_count": len(funcs),
         "queries": queries,
         "assertions_discharged_by_solver": asserts_sym,
@@ -695,8 +696,9 @@ def c14(tier):
             T("transformer", "VerifC14_ManyRelations", {}, sched="rot", prune=True),
             T("transformer", "VerifC14_ParamOrder", {"N": W(tier, 2, 3)}, sched="all", prune=True),
             T("transformer", "VerifC14_CondOrder", {"N": n}, sched="all", prune=True),
-            T("transformer", "VerifC02_Names", {"N": 2}, sched="all", prune=True)]
-    out = engine_a_check("C14", tier, jobs, {"VerifC14_CmpPair": ["less", "greater", "equal"], "VerifC14_CmpTriple": ["chain"],
+            T("transformer", "VerifC02_Names", {"N": 2}, sched="all", prune=True),
+            T("transformer", "VerifC14_JSONString", {"N": n})]
+    out = engine_a_check("C14", tier, jobs, {"VerifC14_CmpPair": ["less", "greater", "equal"], "VerifC14_CmpTriple": ["chain"], "VerifC14_JSONString": ["printed"],
                                              "VerifC14_Canonical": ["printed"], "VerifC14_Inert": ["compared"], "VerifC02_Names": ["printed"],
                                              "VerifC14_TypeOrder": ["printed"], "VerifC14_ManyRelations": ["printed"], "VerifC14_ParamOrder": ["printed"], "VerifC14_CondOrder": ["printed"]},
                          ["names/modules/files over small alphabets (the code only compares and copies bytes)",
@@ -709,10 +711,10 @@ def c14(tier):
 
 def c02(tier):
     jobs = [T("transformer", "VerifC02_Shapes", {"NODES": W(tier, 5, 6), "DEPTH": W(tier, 2, 3), "WIDTH": 3}),
-            T("transformer", "VerifC02_Names", {"N": W(tier, 2, 3)})]
-    out = engine_a_check("C02", tier, jobs, {"VerifC02_Shapes": ["accepted", "rejected", "hoisted", "restrictions-dropped"], "VerifC02_Names": ["printed"]},
+            T("transformer", "VerifC02_Names", {"N": W(tier, 2, 3)}), T("transformer", "VerifC02_ParamTypes")]
+    out = engine_a_check("C02", tier, jobs, {"VerifC02_Shapes": ["accepted", "rejected", "hoisted", "restrictions-dropped"], "VerifC02_Names": ["printed"], "VerifC02_ParamTypes": ["accepted", "rejected"]},
                          ["the parse-back of the produced text is decided on the text (canonical rendering of the normalised model written from the property); the listener half is part of C01",
-                          "a relation with a direct assignment has >= 1 type restriction; names are identifiers"], "",
+                          "names are identifiers (a direct assignment without type restrictions and parameter types without a DSL word are part of the claim: they must be rejected)"], "",
                          bounds={"Shapes": "every rewrite tree with <= %d nodes, depth <= %d, <= 3 operands per operator, 4 restriction lists" % (W(tier, 5, 6), W(tier, 2, 3)),
                                  "Names": "type/relation/sibling names symbolic, length <= %d" % W(tier, 2, 3)})
     out.finish()
@@ -741,6 +743,7 @@ def c08(tier):
             T("transformer", "VerifC15_Manifest", {"K": 2}),
             T("transformer", "VerifC16_SyntaxError"),
             T("transformer", "VerifC07_Merge", {"SCEN": 0, "F": 2, "DECLS": 2, "RELS": 1, "CONDS": 1, "FAULTS": 1, "N": 1, "NR": 1}),
+            merge_listener_jobs(tier, "VerifC07_Merge", FIRST, which=(0,))[0],
             LJ("VerifC08_ListenerRecovery", tier, NODES=1, DEPTH=0, SIBLINGS=0, CONDS=1, FIXLAYOUT=1, PARAMS=1, EXTEND=1, MODULES=1),
             T("graph", "VerifC08_GraphDegenerate", {"DEPTH": W(tier, 1, 2)}),
             T("graph", "VerifC08_PlainGraphDegenerate", init_allow=["gonum.org/v1/gonum/graph/encoding/dot"]),
@@ -987,6 +990,13 @@ def LJ(harness, tier, **params):
     return T("transformer", harness, base, warmup="VerifWarmupParser", sample_witnesses=W(tier, 30, 150))
 
 
+def LJS(harness, tier, **params):
+    """Listener job whose ParseDSL calls (inside the Transform* entry points) go to the parser stub."""
+    j = LJ(harness, tier, **params)
+    j["redirects"] = {"github.com/openfga/language/pkg/go/transformer.ParseDSL": "verifParseDSLStub"}
+    return j
+
+
 SHAPES = dict(SIBLINGS=0, CONDS=0, FIXLAYOUT=1)
 NAMES = dict(NODES=1, DEPTH=0, SIBLINGS=1, CONDS=1, FIXLAYOUT=1, PARAMS=2, N=2)
 
@@ -996,8 +1006,10 @@ def c01(tier):
             LJ("VerifC01_RoundTrip", tier, NODES=2, CONDS=W(tier, 1, 2)),
             LJ("VerifC01_RoundTrip", tier, CHAIN=W(tier, 9, 16), **SHAPES),
             LJ("VerifC01_RoundTrip", tier, NODES=1, DEPTH=0, SIBLINGS=0, CONDS=1, FIXLAYOUT=1, PARAMS=2, PTYPES=1),
-            LJ("VerifC01_RoundTrip", tier, NODES=1, DEPTH=0, SIBLINGS=0, CONDS=1, FIXLAYOUT=1, PARAMS=1, EXPRS=1)]
-    out = engine_a_check("C01", tier, jobs, {"VerifC01_RoundTrip": ["rendered", "stable"]},
+            LJ("VerifC01_RoundTrip", tier, NODES=1, DEPTH=0, SIBLINGS=0, CONDS=1, FIXLAYOUT=1, PARAMS=1, EXPRS=1),
+            LJS("VerifC01_JSONAPI", tier, NODES=W(tier, 3, 4), DEPTH=1, **SHAPES), LJS("VerifC01_JSONAPI", tier, **NAMES),
+            LJS("VerifC01_JSONAPI", tier, NODES=1, DEPTH=0, SIBLINGS=0, CONDS=1, FIXLAYOUT=1, PARAMS=2, PTYPES=1)]
+    out = engine_a_check("C01", tier, jobs, {"VerifC01_RoundTrip": ["rendered", "stable"], "VerifC01_JSONAPI": ["rendered", "stable"]},
                          PARSER_STUB + ["condition expressions come from a menu of token sequences without '#' (comparison, wrapped lines, modulo, string literals with percent signs)", "the JSON string API differs from the direct hand-over only by protojson (not encoded)"], "",
                          bounds={"shapes": "expression trees with <= %d operands in total, parenthesis depth <= %d, redundant parentheses <= 2 pairs, 4 restriction lists" % (W(tier, 4, 5), W(tier, 1, 2)),
                                  "names": "type / relation / sibling / condition names symbolic, length <= 2"})
@@ -1040,7 +1052,28 @@ def merge_jobs(tier, harness, pols):
     return jobs
 
 
-MERGE_BOUNDS = {"SCEN 5": "a base type with two relations, one file with two extension blocks, the second declaring two relations (0-2 conflicts in either textual order)",
+MERGE_LISTENER_RED = {"github.com/openfga/language/pkg/go/transformer.ParseDSL": "verifMergeParseStub",
+                      "github.com/openfga/language/pkg/go/transformer.TransformModularDSLToProto": ""}
+
+
+def merge_listener_jobs(tier, harness, pols, which=(0, 1, 2, 3)):
+    """The merge with the REAL per-file transform (TransformModularDSLToProto + listener over the generated parse tree
+    of each file; only lexer+parser are stubbed): the two sites that cooperate - what the listener hands out for a
+    model / module file and what the merger concludes from it - are executed together."""
+    scen = [(0, {"F": 2, "DECLS": 2, "RELS": 1, "CONDS": 1, "FAULTS": 1, "N": 1}),
+            (0, {"F": 2, "DECLS": W(tier, 3, 4), "RELS": 1, "CONDS": 1, "FAULTS": 0, "N": W(tier, 1, 2)}),
+            (2, {"N": W(tier, 1, 2)}), (1, {"N": W(tier, 1, 2)})]
+    jobs = []
+    for i in which:
+        sc, extra = scen[i]
+        j = T("transformer", harness, dict({"SCEN": sc, "N": 1, "NR": 1, "LISTENER": 1}, **extra), warmup="VerifWarmupParser",
+              sample_witnesses=W(tier, 20, 80), redirects=MERGE_LISTENER_RED, **pols)
+        jobs.append(j)
+    return jobs
+
+
+MERGE_BOUNDS = {"LISTENER=1": "the same scenarios with the real TransformModularDSLToProto and listener over generated parse trees (parser stub only)",
+                "SCEN 5": "a base type with two relations, one file with two extension blocks, the second declaring two relations (0-2 conflicts in either textual order)",
                 "SCEN 3": "two base types with a relation each, two files each extending a type (all names symbolic)",
                 "SCEN 4": "one extension block with two relations whose names may be prefixes of each other, on a type that already has relations",
                 "SCEN 1": "base type + two/three extensions in 2-3 files, names symbolic (length <= 2 types, 1 relations)",
@@ -1051,13 +1084,13 @@ MERGE_BOUNDS = {"SCEN 5": "a base type with two relations, one file with two ext
 def c07(tier):
     # the clause "every file parses as a module" rests on every error the lexer/parser reports being
     # recorded by the error listener (the per-file parse itself is behind the stub): VerifC16_SyntaxError
-    jobs = merge_jobs(tier, "VerifC07_Merge", FIRST) + [T("transformer", "VerifC16_SyntaxError")]
+    jobs = merge_jobs(tier, "VerifC07_Merge", FIRST) + merge_listener_jobs(tier, "VerifC07_Merge", FIRST) + [T("transformer", "VerifC16_SyntaxError")]
     out = engine_a_check("C07", tier, jobs, {"VerifC07_Merge": ["accepted", "rejected"], "VerifC16_SyntaxError": ["recorded"]}, MERGE_ASSUME, "", bounds=MERGE_BOUNDS)
     out.finish()
 
 
 def c12(tier):
-    jobs = merge_jobs(tier, "VerifC12_Deterministic", ALL)[:6] + merge_jobs(tier, "VerifC12_Permuted", FIRST)[:6]
+    jobs = merge_jobs(tier, "VerifC12_Deterministic", ALL)[:6] + merge_jobs(tier, "VerifC12_Permuted", FIRST)[:6] + merge_listener_jobs(tier, "VerifC12_Permuted", FIRST, which=(2,))
     out = engine_a_check("C12", tier, jobs, {"VerifC12_Deterministic": ["accepted", "rejected"], "VerifC12_Permuted": ["accepted", "rejected"]},
                          MERGE_ASSUME + ["every iteration order of the maps ranged over in module-to-model.go (self-composition: two merges, independent orders)"], "", bounds=MERGE_BOUNDS)
     out.finish()
@@ -1126,6 +1159,20 @@ def main():
         log(json.dumps(ev[0], indent=1))
         fails = [e for e in (ev[0] or []) if e["kind"] == "assert-fail"]
         sys.exit(1 if fails else 0)
+    if args[0] == "--adhoc":
+        # development aid: check.py --adhoc <PID> '<json list of jobs>' [required reach json]; evidence and replays go to /tmp
+        os.environ.setdefault("VERIF_EVIDENCE_DIR", "/tmp/adhoc-evidence")
+        os.environ.setdefault("VERIF_REPLAY_DIR", "/tmp/adhoc-replays")
+        os.environ["VERIF_TIER_CUR"] = os.environ.get("VERIF_TIER", "quick")
+        jobs = json.loads(args[2])
+        for j in jobs:
+            j.setdefault("workers", NCPU)
+            j.setdefault("deadline_s", 600)
+            j.setdefault("record_asserts", 4)
+        out = engine_a_check(args[1], os.environ["VERIF_TIER_CUR"], jobs, json.loads(args[3]) if len(args) > 3 else {}, [], "")
+        for h, ph in out.coverage.get("per_harness", {}).items():
+            log("  %s paths=%s reach=%s wall=%s exhaustive=%s" % (h, ph["paths"], ph["reach"], ph["wall_s"], ph["exhaustive"]))
+        out.finish()
     pid = args[0]
     tier = os.environ.get("VERIF_TIER", "quick")
     if "--tier" in args:
